@@ -10,7 +10,10 @@ FELDMAN = [("set_hash", ["feldman_hp_h0", "feldman_hp_h3", "feldman_dhp_h3"])]
 PROGRAMS = ["ins:1,ins:3,ins:5;iter|era:3,ins:2,ins:4|ins:6,era:2;trav",
             "ins:1,ins:2,ins:5;iter,iter|upd1:2,era:2,ins:3|ins:4,ext:4;trav",
             "ins:1,ins:3,ins:5;eraseat:3,iter|era:3,ins:3|ins:2,iter;trav",
-            "ins:1,ins:2,ins:3,ins:4,ins:5;iter|eraseat:2,eraseat:4|era:3,ins:6;trav"]
+            "ins:1,ins:2,ins:3,ins:4,ins:5;iter|eraseat:2,eraseat:4|era:3,ins:6;trav",
+            # erase_at while the iterator's element is being replaced and a neighbour insertion temporarily marks its data pointer
+            "ins:1,ins:2,ins:4;eraseat:2|upd1:2|ins:3;trav",
+            "ins:1,ins:3,ins:5;eraseat:3,eraseat:1|upd1:3,upd1:1|ins:4,ins:2;trav"]
 FELD_EXTRA = ["ins:1,ins:3,ins:5;riter|era:3,ins:2,ins:4|ins:6,era:2;trav", "ins:1,ins:2,ins:3,ins:4;iter,riter|ins:5,ins:6,ins:7|era:2,upd1:3;trav"]
 DEEP = ["ins:1,ins:2,ins:3;iter|era:2,ins:2;trav", "ins:1,ins:2;eraseat:2|era:2,ins:2;trav"]
 
